@@ -47,7 +47,9 @@ def run(ck):
     runs = [S(128, 96, 3, 1, 10, enc_mode=8, qp=0), S(128, 96, 3, 1, 8, enc_mode=8, qp=0), S(64, 64, 3, 1, 10, enc_mode=8, qp=2), S(196, 100, 3, 1, 10, enc_mode=8, qp=4), S(128, 96, 4, 4, 8, enc_mode=8, qp=63),
             S(130, 66, 4, 0, 8, enc_mode=8), S(72, 72, 4, 3, 8, enc_mode=6), S(200, 136, 4, 5, 8, enc_mode=6, screen_content_mode=1), S(192, 128, 4, 2, 10, enc_mode=4), S(256, 128, 4, 6, 8, enc_mode=8, tile_columns=2, tile_rows=1, qp=0),
             S(192, 128, 5, 7, 8, enc_mode=8, film_grain_denoise_strength=20), S(256, 192, 4, 2, 8, enc_mode=8, superres_mode=1, superres_denom=12, superres_kf_denom=12), S(128, 192, 4, 8, 8, enc_mode=6),
-            S(192, 128, 6, 2, 8, enc_mode=8, rate_control_mode=1, target_bit_rate=200000), S(192, 128, 4, 1, 8, enc_mode=8, qp=0, tile_columns=1), S(136, 72, 4, 4, 10, enc_mode=8, qp=1)]
+            S(192, 128, 6, 2, 8, enc_mode=8, rate_control_mode=1, target_bit_rate=200000), S(192, 128, 4, 1, 8, enc_mode=8, qp=0, tile_columns=1), S(136, 72, 4, 4, 10, enc_mode=8, qp=1),
+            # a first pass longer than the statistics ring (MAX_LAG_BUFFERS = 35 entries)
+            S(64, 64, 40, 2, 8, enc_mode=8, rc_firstpass_stats_out=1)]
     if ck.tier == 'thorough':
         runs += [S(w, h, 4, c, b, enc_mode=p, qp=q) for (w, h, c, b, p, q) in [(320, 192, 1, 10, 8, 0), (66, 130, 2, 8, 8, 30), (384, 256, 8, 8, 2, 40), (256, 256, 4, 10, 6, 63), (200, 200, 5, 8, 3, 20), (640, 360, 1, 8, 8, 0), (128, 96, 1, 10, 8, 5), (128, 96, 1, 10, 8, 6)]]
     res = e2e.run_many(abin, astamp, runs, timeout=1200, jobs=6)
@@ -95,7 +97,7 @@ def run(ck):
         ck.violation('structure_%s:%s' % (kind, cls), 'the encode %s (%s; %d of %d packets): %s' % ('does not finish' if kind == 'hang' else 'crashes', r['outcome'], len(r['hist']['pkts']), a['n'], e2e.describe(a)), dict(scenario=a, cmd=r.get('cmd')), True)
     ck.cov['traces_validated_against_impl'] = len(runs) + len(big) + len(struct)
     ck.sample(dict(scenario=e2e.describe({k: v for k, v in runs[0].items() if not k.startswith('env:')})))
-    ck.cov['rule'] = 'ASan+UBSan sessions: noise at qp 0-4 in 8 and 10 bit (the most bytes per sample), extremes at qp 63, sizes that are not multiples of 8, flat, screen content, 128 superblocks, tiles, film grain, superres, portrait, VBR; release build: 1024x640 and 1600x900 noise at qp 0'
+    ck.cov['rule'] = 'ASan+UBSan sessions: noise at qp 0-4 in 8 and 10 bit (the most bytes per sample), extremes at qp 63, sizes that are not multiples of 8, flat, screen content, 128 superblocks, tiles, film grain, superres, portrait, VBR, a 40-picture first pass; release build: 1024x640 and 1600x900 noise at qp 0'
     br = ck.broken_obligations()
     if br and not ck.violations:
         ck.violation('obligation_broken', 'C11 proof/tie no longer checks: ' + '; '.join('%s (%s)' % (n_, d_[:200]) for n_, d_ in br[:3]), dict(broken=[dict(name=n_, detail=d_) for n_, d_ in br]), False)
